@@ -9,8 +9,8 @@ TEXT["C12"] = dict(
          "this run accepts exactly the frames of its field-level specification; plus a correspondence run of the same programs in x/net/bpf's VM "
          "against the Coq interpreter and the spec over the equivalence classes the property lists.",
     note="Tie kind A: programs are dumped from /repo via a verif-tagged accessor and the TCP generator is templated with marker configurations "
-         "then re-validated. Trusted: Coq kernel, the dump/template translator, x/net/bpf VM = kernel cBPF semantics. Linking theorem (matcher hop => filter accepts) "
-         "see level text once built.",
+         "then re-validated. Trusted: Coq kernel, the dump/template translator, x/net/bpf VM = kernel cBPF semantics. Linking property (matcher hop => installed filter accepts): refuted by a machine-checked witness (IPv6 hop-by-hop before ICMPv6 = the recorded known finding); "
+         "for every other frame the lab delivers it is checked on the implementation (real programs in bpf.VM vs real drivers), which is not a proof: PARTIAL.",
     technique="Coq proof over a cBPF interpreter on programs regenerated from source + differential run against bpf.VM",
 )
 
